@@ -1,6 +1,6 @@
 (* Create: the archive it writes passes CheckZip and extracts to exactly the valid files. *)
 From Coq Require Import String.
-From Coq Require Import List NArith ZArith Bool Lia.
+From Coq Require Import List NArith ZArith Bool Lia Sorted.
 From Verif Require Import Zip.Bytes Zip.BytesProofs Zip.Model Zip.PathProofs Zip.ZipProofs Zip.FsProofs
   Zip.UnzipProofs Zip.CollisionProofs Zip.HostileProofs Zip.ElemProofs Zip.RoundtripProofs.
 Import ListNotations.
@@ -510,4 +510,31 @@ Section Oracle.
     - intros q c L S. destruct (I1 q c L S) as [e [A [B [C D]]]].
       rewrite EQ in A. apply in_map_iff in A. destruct A as [f [<- A]]. exists f. auto.
   Qed.
+
+  (* ---------------------------------------------------------------- the order of the archive *)
+  Definition name_le (a b : file) : Prop := str_leb (f_name a) (f_name b) = true.
+
+  Lemma str_leb_total : forall a b, str_leb a b = false -> str_leb b a = true.
+  Proof.
+    induction a as [|x a IH]; intros [|y b] H; simpl in *; try discriminate; auto.
+    destruct (x <? y)%N eqn:E1; [discriminate|]. destruct (y <? x)%N eqn:E2; auto.
+  Qed.
+
+  Lemma insert_sorted_sorted : forall f l, Sorted name_le l -> Sorted name_le (insert_sorted f l).
+  Proof.
+    induction l as [|g r IH]; intros S; simpl.
+    - repeat constructor.
+    - destruct (str_leb (f_name f) (f_name g)) eqn:E.
+      + constructor; auto.
+      + inversion S; subst. constructor; auto.
+        destruct r as [|h r']; simpl.
+        * constructor. apply str_leb_total; auto.
+        * destruct (str_leb (f_name f) (f_name h)); constructor; auto.
+          -- apply str_leb_total; auto.
+          -- inversion H2; auto.
+  Qed.
+
+  (* Create writes the files in byte order of their paths *)
+  Theorem sort_files_sorted : forall l, Sorted name_le (sort_files l).
+  Proof. induction l as [|f r IH]; simpl; [constructor|apply insert_sorted_sorted; auto]. Qed.
 End Oracle.
